@@ -300,14 +300,24 @@ def prepare(job, workdir, rng_cls):
   except Exception as e:
     job.stage, job.info = 'gen-error', f'{type(e).__name__}: {e}'[:300]; return
   try:
-    top = Top(); top.elaborate()
-    top2 = Top(); top2.elaborate()
+    if d.get('history'):
+      # 'history': constructor arguments of several instances of the same class, ALL elaborated in this process (each as its
+      # own top, in the given order) before instance number d['pick'] is translated; the emitted text of that instance is
+      # compared with the simulation of a further instance built with the same arguments
+      tops = [Top(*a) for a in d['history']]
+      for t in tops: t.elaborate()
+      top2 = tops[d['pick']]
+      top = Top(*d['history'][d['pick']]); top.elaborate()
+    else:
+      top = Top(); top.elaborate()
+      top2 = Top(); top2.elaborate()
   except Exception as e:
     job.stage, job.info = 'elab-error', f'{type(e).__name__}: {str(e)[:300]}'; return
   job.ports = top_ports(top)
   if 'cycles' in d: job.cycles = d['cycles']
   else: job.cycles = gen_cycles(rng_cls(job.cyc_seed), job.ports, job.ncycles)
   job.case = {'label': d['label'], 'backend': job.be, 'src': d['src'], 'cycles': job.cycles}
+  if d.get('history'): job.case['history'], job.case['pick'] = d['history'], d['pick']
   try:
     job.pytrace = simulate_pymtl(top, job.ports, job.cycles)
   except Exception as e:
